@@ -561,8 +561,10 @@ static char * correct_dimension_units(char * original) {
 		result[i] = tolower(result[i]);
 	}
 
-	if (strstr(&result[strlen(result) - 2], "px")) {
-		result[strlen(result) - 2] = '\0';
+	size_t len = strlen(result);
+
+	if ((len >= 2) && strstr(&result[len - 2], "px")) {
+		result[len - 2] = '\0';
 		strcat(result, "pt");
 	}
 
